@@ -127,6 +127,7 @@ func (x *Explorer) doCallVals(st *State, f *Frame, ins ssa.Instruction, c *ssa.C
 			con = cc
 		}
 		if con == nil {
+			snapsLib := x.argSnapshots(st, allArgs)
 			if v, ok := x.libModel(st, f, ins, key, target, allArgs, sig); ok {
 				var rv []Val
 				if tu, isT := v.(VTuple); isT && sig.Results().Len() > 1 {
@@ -134,7 +135,7 @@ func (x *Explorer) doCallVals(st *State, f *Frame, ins ssa.Instruction, c *ssa.C
 				} else if v != nil {
 					rv = []Val{v}
 				}
-				x.observe(st, f, target.Name(), site, allArgs, rv)
+				x.observe(st, f, target.Name(), site, allArgs, rv, snapsLib)
 				x.bind(st, f, res, v, isDefer)
 				return
 			}
@@ -239,12 +240,13 @@ func (x *Explorer) havocCallObs(st *State, f *Frame, key, name, site string, sig
 	if !st.dry {
 		x.unmod[key]++
 	}
+	snaps := x.argSnapshots(st, args)
 	x.havocPointees(st, args)
 	vals := make([]Val, sig.Results().Len())
 	for i := range vals {
 		vals[i] = x.freshResult(st, sig.Results().At(i).Type(), "havoc_"+shortKey(name))
 	}
-	x.observe(st, f, name, site, args, vals)
+	x.observe(st, f, name, site, args, vals, snaps)
 	x.bind(st, f, res, resultVal(sig, vals), isDefer)
 }
 
@@ -400,6 +402,7 @@ func (x *Explorer) applyContract(st *State, f *Frame, con *Contract, allArgs []V
 	}
 	env.oldVars = env.vars
 	env.callK = int64(refBase + x.nextRef)
+	snaps := x.argSnapshots(st, allArgs)
 	// a method with a pointer receiver is verified for a non-nil receiver only: the call has
 	// to establish that (nothing is known about the callee on a nil receiver)
 	if con.RecvType != "" && len(allArgs) > 0 && x.eng.hasBody(con) {
@@ -468,7 +471,7 @@ func (x *Explorer) applyContract(st *State, f *Frame, con *Contract, allArgs []V
 			x.assumed["clause ["+cl.Label+"] of "+con.Key+" is assumed, not proved: "+cl.Text]++
 		}
 	}
-	x.observe(st, f, con.FuncName, site, allArgs, vals)
+	x.observe(st, f, con.FuncName, site, allArgs, vals, snaps)
 	if !st.dry && !st.dead {
 		// vacuity guard: the assumed clauses must leave this path (or another one) alive
 		x.obls = append(x.obls, &Obligation{Func: x.fnKey, Name: "cover[after " + site + "]", Kind: "cover", Label: "after " + site, Cover: true,
@@ -509,7 +512,7 @@ func (e *Engine) hasBody(con *Contract) bool {
 }
 
 // observe records ghost facts about a call for `observe` clauses of the function under contract.
-func (x *Explorer) observe(st *State, f *Frame, callee, site string, args, results []Val) {
+func (x *Explorer) observe(st *State, f *Frame, callee, site string, args, results []Val, snaps []*Term) {
 	top := st.frames[0]
 	if top.contract == nil {
 		return
@@ -535,16 +538,28 @@ func (x *Explorer) observe(st *State, f *Frame, callee, site string, args, resul
 		for i, a := range args {
 			st.ghosts[fmt.Sprintf("%s.arg%d", o.Name, i)] = a
 			// byte strings: the contents at the time of the call (name.argKval)
-			if sl, ok := a.(VSlice); ok {
-				if b, isB := sl.Elem.Underlying().(*types.Basic); isB && (b.Kind() == types.Uint8 || b.Kind() == types.Byte) {
-					st.ghosts[fmt.Sprintf("%s.arg%dval", o.Name, i)] = VInt{T: st.bval(sl)}
-				}
+			if i < len(snaps) && snaps[i] != nil {
+				st.ghosts[fmt.Sprintf("%s.arg%dval", o.Name, i)] = VInt{T: snaps[i]}
 			}
 		}
 		for i, r := range results {
 			st.ghosts[fmt.Sprintf("%s.res%d", o.Name, i)] = r
 		}
 	}
+}
+
+// argSnapshots: the contents of byte-string arguments at the time of the call (before the callee's
+// effects are applied), for the observers' argKval.
+func (x *Explorer) argSnapshots(st *State, args []Val) []*Term {
+	out := make([]*Term, len(args))
+	for i, a := range args {
+		if sl, ok := a.(VSlice); ok {
+			if b, isB := sl.Elem.Underlying().(*types.Basic); isB && (b.Kind() == types.Uint8 || b.Kind() == types.Byte) {
+				out[i] = st.bval(sl)
+			}
+		}
+	}
+	return out
 }
 
 // crashPoint: the process may die right after a durable write.
@@ -585,7 +600,8 @@ func mentionsObserver(e *SExpr, con *Contract) bool {
 // allocated during the call (references in [refBase, 10^9)) are not constrained.
 func frameFormula(name string, cur, old *Term, mods []Loc, r *Term) *Term {
 	pre := Or(Lt(r, IntLit(refBase)), Ge(r, IntLit(1000000000)))
-	guard := []*Term{pre}
+	// reference 0 is nil: no object lives there (a "write" to the array of a nil slice is a write of nothing)
+	guard := []*Term{pre, Neq(r, IntLit(0))}
 	innerNew := Select(cur, r)
 	patched := Select(old, r)
 	for _, m := range mods {
